@@ -80,4 +80,32 @@ CLAIMS['C11'] = {
           'definitions (data-dependent loops).',
   'note': 'IEEE-754 binary32/binary64 constants are the reference for ?mach. Oracle in slucheck/rules/r8_equil.py.',
 }
+CLAIMS['C02'] = {
+  'level': 'other',
+  'technique': 'static analysis: role-discovering structural rules on the pivot routine and the factor loop (guards, reaching definitions), permutation-shape classification (R7), sibling and twin agreement (R9)',
+  'design_ref': 'DESIGN.md 5 C02',
+  'text': 'Decides the pivoting clauses that are shapes of the code, for all inputs and all four types: which definitions of the pivot position reach the row interchange and under which tests (multipliers bounded by 1/u, diagonal preference, fallback when a remembered pivot fails), and the perm_r / inverse-permutation discipline that makes the row permutation a bijection on success. The kernels that compute the factors are covered only by agreement of their s/d and c/z instantiations and of the relaxed-supernode routines with their ILU twins. Pr*A*Pc = L*U within the rounding bound is not decided.',
+  'note': 'Roles (running maximum, threshold, pivot position) are discovered from the code; a restructured but equivalent pivot routine would need the rule to be revisited (reported as a violation naming the construct).',
+}
+CLAIMS['C03'] = {
+  'level': 'other',
+  'technique': 'static analysis: creator-binding extraction and branch-twin comparison on the factor tail, ordering of count/fix-up/wrap, sibling and twin agreement (R9)',
+  'design_ref': 'DESIGN.md 5 C03',
+  'text': 'Decides that L and U are wired to the arrays that were filled and counted: count and fix-up precede the wrap, and the reuse branch refreshes every field the creators bind to a count or a growable array (binding read from the creators themselves). Symbolic kernels are covered by s=d, c=z agreement. Partitioning of columns into supernodes, ordering/distinctness of row lists and absence of repeats in U are data-dependent loop invariants and are not decided.',
+  'note': 'Fields bound to supno[] / xsup[] are exempt from the refresh rule (fixed size n+1, updated in place).',
+}
+CLAIMS['C04'] = {
+  'level': 'other',
+  'technique': 'static analysis: structural guard rules on the pivot routine, first-failure rule on the factor loop, flag-partitioned event oracle on both drivers (R3), sibling agreement (R9)',
+  'design_ref': 'DESIGN.md 5 C04',
+  'text': 'Decides, for all inputs: the singular report is `jcol+1` under an exact zero test of the running maximum with no side effect on perm_r; a zero entry can never be chosen while a non-zero candidate exists; the first singular column is the one reported while later columns are still processed; after info != 0 neither driver calls a solve/refinement/condition routine nor writes B or X (every flag valuation). Not decided: validity of the leading block; that structural singularity always reaches a zero maximum.',
+  'note': 'Representative values stand for the classes of info (0, 1..n, >n).',
+}
+CLAIMS['C06'] = {
+  'level': 'other',
+  'technique': 'static analysis: flag-partitioned event oracle on the expert driver and sp_preorder (R3), creator-binding branch twin, field-sensitive may-write sets (R10), sibling agreement (R9)',
+  'design_ref': 'DESIGN.md 5 C06',
+  'text': 'Decides which phases run for each Fact value (all valuations, four types), that reuse modes leave perm_c/etree alone, that the reuse tail of the factor routine refreshes every rebindable field of L and U, that the solve-side routines cannot write any path under L or U (sound may-write over-approximation under the no-alias contract), and the pivot fallback. Accuracy of each call in a history is not decided.',
+  'note': 'No-alias contract between distinct pointer arguments; external BLAS effects from a reviewed table.',
+}
 NOT_APPLICABLE = {}
